@@ -21,10 +21,11 @@ func (ex *Exec) call(fr *Frame, st *State, site ssa.Instruction, c *ssa.CallComm
 		return ex.builtinCall(fr, st, site, b, c, args)
 	}
 	var rets []Val
+	pre := ex.capturePre(fr, st, site)
 	if c.IsInvoke() {
 		recv := ex.operand(fr, c.Value).(*Agg)
 		rets = ex.invoke(fr, st, site, c.Value.Type(), c.Method, recv, args)
-		ex.recordCapture(fr, st, site, append([]Val{recv}, args...), rets, sig)
+		ex.recordCapture(fr, st, site, append([]Val{recv}, args...), rets, sig, pre)
 		return rets
 	}
 	fv, ok := ex.operand(fr, c.Value).(*FuncVal)
@@ -84,7 +85,7 @@ func (ex *Exec) call(fr *Frame, st *State, site ssa.Instruction, c *ssa.CallComm
 	} else {
 		rets = ex.dispatch(fr, st, site, fv.Fn, args, fv.Bindings)
 	}
-	ex.recordCapture(fr, st, site, args, rets, sig)
+	ex.recordCapture(fr, st, site, args, rets, sig, pre)
 	return rets
 }
 
@@ -190,12 +191,12 @@ func (ex *Exec) runDeferred(fr *Frame, st *State, d deferEntry) {
 		ex.builtinCall(fr, sub, d.call, b, c, d.args)
 	} else if c.IsInvoke() {
 		rets = ex.invoke(fr, sub, d.call, c.Value.Type(), c.Method, d.recv.(*Agg), d.args)
-		ex.recordCapture(fr, sub, d.call, append([]Val{d.recv}, d.args...), rets, c.Signature())
+		ex.recordCapture(fr, sub, d.call, append([]Val{d.recv}, d.args...), rets, c.Signature(), nil)
 	} else if fv, ok := d.fn.(*FuncVal); ok {
 		called := sub.reach
 		rets = ex.dispatch(fr, sub, d.call, fv.Fn, d.args, fv.Bindings)
 		pre := &State{reach: called}
-		ex.recordCapture(fr, pre, d.call, d.args, rets, c.Signature())
+		ex.recordCapture(fr, pre, d.call, d.args, rets, c.Signature(), nil)
 	} else {
 		ex.note("%s: deferred call through unknown function value havoced", fr.label)
 		ex.havocCall(sub, c.Signature())
@@ -654,7 +655,12 @@ func (ex *Exec) havocElems(st *State, arr *Term, et types.Type) {
 }
 
 // elemLeafOf: p is the address of a leaf of sort `sort` of element arr[i] (lo <= i < hi when given).
+// A nil slice has no elements: nothing is at an element of the null array.
 func elemLeafOf(p, arr *Term, et types.Type, sort string, lo, hi *Term) *Term {
+	return And(Not(Eq(arr, Null())), elemLeafOf1(p, arr, et, sort, lo, hi))
+}
+
+func elemLeafOf1(p, arr *Term, et types.Type, sort string, lo, hi *Term) *Term {
 	paths, ok := leafFieldPaths(et, nil, nil)
 	if !ok {
 		if lo != nil {
@@ -1095,17 +1101,27 @@ func (ex *Exec) findCaptureSite(fn *ssa.Function, cp *Capture) ssa.CallInstructi
 		inst ssa.CallInstruction
 	}
 	var cands []cand
-	for _, b := range fn.Blocks {
-		for _, in := range b.Instrs {
-			ci, ok := in.(ssa.CallInstruction)
-			if !ok || !in.Pos().IsValid() {
-				continue
+	var collect func(f *ssa.Function)
+	collect = func(f *ssa.Function) {
+		for _, b := range f.Blocks {
+			for _, in := range b.Instrs {
+				ci, ok := in.(ssa.CallInstruction)
+				if !ok || !in.Pos().IsValid() {
+					continue
+				}
+				if ex.prog.callFunText(in.Pos()) == strings.ReplaceAll(cp.Callee, " ", "") {
+					cands = append(cands, cand{in.Pos(), ci})
+				}
 			}
-			if ex.prog.callFunText(in.Pos()) == strings.ReplaceAll(cp.Callee, " ", "") {
-				cands = append(cands, cand{in.Pos(), ci})
+		}
+		// function literals without a contract of their own are part of the body (inlined)
+		for _, af := range f.AnonFuncs {
+			if ex.contractFor(af) == nil {
+				collect(af)
 			}
 		}
 	}
+	collect(fn)
 	for i := 0; i < len(cands); i++ {
 		for j := i + 1; j < len(cands); j++ {
 			if cands[j].pos < cands[i].pos {
@@ -1119,7 +1135,40 @@ func (ex *Exec) findCaptureSite(fn *ssa.Function, cp *Capture) ssa.CallInstructi
 	return nil
 }
 
-func (ex *Exec) recordCapture(fr *Frame, st *State, site ssa.Instruction, args, rets []Val, sig *types.Signature) {
+// captureOwner: calls inside an inlined function literal belong to the enclosing function under contract.
+func captureOwner(fr *Frame) *Frame {
+	for fr != nil && fr.con == nil && fr.parent != nil && fr.fn.Parent() != nil {
+		fr = fr.parent
+	}
+	return fr
+}
+
+func (ex *Exec) captureSites(fr *Frame) map[*Capture]ssa.CallInstruction {
+	if fr.capSites == nil {
+		fr.capSites = map[*Capture]ssa.CallInstruction{}
+		for _, c := range fr.con.Captures {
+			fr.capSites[c] = ex.findCaptureSite(fr.fn, c)
+		}
+	}
+	return fr.capSites
+}
+
+// capturePre snapshots the state in front of a captured call site (for the before() intrinsic).
+func (ex *Exec) capturePre(fr *Frame, st *State, site ssa.Instruction) *State {
+	fr = captureOwner(fr)
+	if fr == nil || fr.con == nil || len(fr.con.Captures) == 0 || ex.spec > 0 {
+		return nil
+	}
+	for _, ci := range ex.captureSites(fr) {
+		if ci != nil && ci.(ssa.Instruction) == site {
+			return st.clone()
+		}
+	}
+	return nil
+}
+
+func (ex *Exec) recordCapture(fr *Frame, st *State, site ssa.Instruction, args, rets []Val, sig *types.Signature, pre *State) {
+	fr = captureOwner(fr)
 	if fr == nil || fr.con == nil || len(fr.con.Captures) == 0 || ex.spec > 0 {
 		return
 	}
@@ -1131,7 +1180,19 @@ func (ex *Exec) recordCapture(fr *Frame, st *State, site ssa.Instruction, args, 
 			}
 		}
 		if ci := fr.capSites[cp]; ci != nil && ci.(ssa.Instruction) == site {
-			fr.captures[cp.Name] = &capRec{called: st.reach, args: args, rets: rets, sig: sig}
+			rec := &capRec{called: st.reach, args: args, rets: rets, sig: sig, pre: pre}
+			if old := fr.captures[cp.Name]; old != nil && old.called != st.reach && len(old.args) == len(args) && len(old.rets) == len(rets) {
+				// the site ran before on another path (an inlined closure invoked from several
+				// places): the latest execution wins where it ran, the earlier one elsewhere
+				rec = &capRec{called: Or(old.called, st.reach), sig: sig}
+				for i := range args {
+					rec.args = append(rec.args, iteVal(st.reach, args[i], old.args[i]))
+				}
+				for i := range rets {
+					rec.rets = append(rec.rets, iteVal(st.reach, rets[i], old.rets[i]))
+				}
+			}
+			fr.captures[cp.Name] = rec
 		}
 	}
 }
@@ -1171,6 +1232,10 @@ func (ex *Exec) bindCaptures(fr *Frame, env *SpecEnv, sc *specScope, reachNow *T
 			continue
 		}
 		bind(cp.Name+"_called", rec.called)
+		if env.capPre == nil {
+			env.capPre = map[string]*State{}
+		}
+		env.capPre[cp.Name+"_called"] = rec.pre
 		args := rec.args
 		if c.IsInvoke() || sig.Recv() != nil {
 			if len(args) > 0 {
